@@ -274,6 +274,8 @@ def jobs(tier):
                         J.append(Job(f'{kind}.gradient:order={order}:{bc}:N={N}', lambda c, k=kind, N=N, bc=bc, o=order: mrf_gradient(c, k, N, bc, o), 'Pbox',
                                      [f'{mod}:{kind}._gradient'], rtol=1e-4))
             J.append(Job(f'{kind}.logpdf2D:{bc}:N=3x3', lambda c, k=kind, bc=bc: mrf_logpdf(c, k, 3, bc, 1, True), 'Pbox', [f'{mod}:{kind}.logpdf'] + FO))
+            if kind == 'GMRF' and bc in ('zero', 'periodic'):      # second-order field on an image: differences along BOTH directions (a non-symmetric image tells them apart)
+                J.append(Job(f'GMRF.logpdf2D:order=2:{bc}:N=3x3', lambda c, bc=bc: mrf_logpdf(c, 'GMRF', 3, bc, 2, True), 'Pbox', [f'{mod}:GMRF.logpdf', 'cuqi.operator._operator:SecondOrderFiniteDifference._create_diff_matrix'] + FO))
     for kind in ('GMRF', 'LMRF', 'CMRF'):
         J.append(Job(f'{kind}.logpdf:extreme_values', lambda c, k=kind: mrf_extreme_values(c, k), 'B', [f'cuqi.distribution._{kind.lower()}:{kind}.logpdf'], nnum=3))
     return J
